@@ -12,20 +12,24 @@ PlaceT  == <<1, 3, 4, 5>>
 FlagsNone == {{}}
 FlagsG    == {{"G"}}
 FlagsAll  == {{}, {"G"}, {"P"}, {"G", "P"}}
+FlagsGPonly == {{"G", "P"}}
 FlagsG2   == {{}, {"G", "P"}}
 FlagsGP   == {{}, {"G"}, {"G", "P"}}
 FlagsGPS  == {{}, {"G"}, {"G", "S"}, {"P"}}
+FlagsT2   == {{"G", "S"}}
 Both      == {TRUE, FALSE}
+NoDb      == {FALSE}
+OnlyDb    == {TRUE}
+OnlyTrack == {TRUE}
 
 \* Depth bound as an enabling condition: states at depth MaxLevel are reached and checked but not expanded, so no
 \* successor is generated only to be thrown away (a CONSTRAINT would generate, check and print all of them).
 GoBounded == TLCGet("level") < MaxLevel
 Bound == TLCGet("level") <= MaxLevel
-\* moves only counts; hiding it (and the derived history set) closes the state space of the exhaustive run
-ViewClosed == <<children, loc, byLoc, sfp, slot, fresh, purged, num, nextNum, asmTab, blkTab, blocks, bname, content, track, sflags>>
 ViewAll == vars
 \* one line per explored edge, one line per distinct state
 Emit == PrintT(ToJson([lvl |-> TLCGet("level"), from |-> Vars, act |-> act', to |-> Vars', err |-> err']))
-EmitState == PrintT(ToJson([st |-> Vars, obs |-> Obs]))
-ASSUME PrintT(ToJson([config |-> Config]))
+\* q: what a look-up by location answers in this state (the expectation of an Ask made in it)
+EmitState == PrintT(ToJson([st |-> Vars, obs |-> Obs, q |-> Queries]))
+ASSUME PrintT(ToJson([config |-> Config, noAnswer |-> NoAnswer]))
 ========================================================================================================
